@@ -746,7 +746,10 @@ def _skip_event(*events, **kwargs):
     if changed is None:
         return False
     for e in events:
-        for p in changed:
+        if e.name not in changed:
+            # Not a subobject but a parameter depended on directly
+            return False
+        for p in changed[e.name]:
             if what == 'value':
                 old = Undefined if e.old is None else _getattrr(e.old, p, None)
                 new = Undefined if e.new is None else _getattrr(e.new, p, None)
@@ -2384,8 +2387,20 @@ class Parameters:
         if dynamic_dep is None:
             subparams, callback, what = None, None, param_dep.what
         else:
-            subparams, callback, what = self_._resolve_dynamic_deps(
-                obj, dynamic_dep, param_dep, attribute)
+            # Accumulate the parameters to compare for each subobject
+            # in the group; a parameter that is (also) depended on
+            # directly is never skipped.
+            subparams, direct, callback, what = defaultdict(list), set(), None, None
+            for ddep, pdep in group:
+                dsubparams, dcallback, dwhat = self_._resolve_dynamic_deps(
+                    obj, ddep, pdep, attribute)
+                if dsubparams is None:
+                    direct.add(pdep.name)
+                else:
+                    subparams[pdep.name] += dsubparams
+                callback = callback or dcallback
+                what = what or dwhat
+            subparams = {n: sps for n, sps in subparams.items() if n not in direct}
 
         mcaller = _m_caller(obj, name, what, subparams, callback)
         return dep_obj.param._watch(
